@@ -233,6 +233,7 @@ func (s *Slicer) walk(st *sliceState, v ssa.Value, depth int, ctx *callCtx) {
 	}
 	st.visited[key] = true
 	st.seen[v] = true
+	s.walkMutators(st, v, depth, ctx)
 	switch x := v.(type) {
 	case *ssa.Const, *ssa.Global, *ssa.Function, *ssa.Builtin:
 		return
@@ -291,6 +292,10 @@ func (s *Slicer) walk(st *sliceState, v ssa.Value, depth int, ctx *callCtx) {
 					if r, ok := in.(*ssa.Return); ok && x.Index < len(r.Results) {
 						s.walk(st, r.Results[x.Index], depth+1, nctx)
 					}
+				}
+				// arguments of this very call site (dependences through side effects inside the callee)
+				for _, a := range c.Call.Args {
+					s.walk(st, a, depth, ctx)
 				}
 				return
 			}
@@ -370,6 +375,9 @@ func (s *Slicer) walkAggregateStores(st *sliceState, v ssa.Value, depth int, ctx
 						if sto, ok := q.(*ssa.Store); ok && sto.Addr == u {
 							s.walk(st, sto.Val, depth, ctx)
 						}
+						if ld, ok := q.(*ssa.UnOp); ok && ld.Op == token.MUL {
+							s.walkMutators(st, ld, depth, ctx)
+						}
 					}
 				}
 			}
@@ -392,6 +400,15 @@ func (s *Slicer) walkLoad(st *sliceState, ld *ssa.UnOp, depth int, ctx *callCtx)
 	if cell := cellOf(addr); cell != nil {
 		st.seen[addr] = true
 		s.walk(st, cell, depth, ctx)
+		for _, a := range addrsOfCell(cell) {
+			if refs := a.Referrers(); refs != nil {
+				for _, r := range *refs {
+					if o, ok := r.(*ssa.UnOp); ok && o != ld && o.Op == token.MUL {
+						s.walkMutators(st, o, depth, ctx)
+					}
+				}
+			}
+		}
 		return
 	}
 	switch a := addr.(type) {
@@ -399,6 +416,14 @@ func (s *Slicer) walkLoad(st *sliceState, ld *ssa.UnOp, depth int, ctx *callCtx)
 		f := fieldOfAddr(a)
 		for _, sto := range fieldStores(ld.Parent(), a.X, f) {
 			s.walk(st, sto.Val, depth, ctx)
+		}
+		// aliases: other loads of the same field of the same object may be handed to mutating calls
+		for _, in := range instrsOf(ld.Parent()) {
+			if o, ok := in.(*ssa.UnOp); ok && o != ld && o.Op == token.MUL {
+				if fa, ok := o.X.(*ssa.FieldAddr); ok && fieldOfAddr(fa) == f && sameObject(fa.X, a.X) {
+					s.walkMutators(st, o, depth, ctx)
+				}
+			}
 		}
 		s.walk(st, a.X, depth, ctx)
 	case *ssa.IndexAddr:
@@ -446,6 +471,9 @@ func (s *Slicer) walkCall(st *sliceState, c *ssa.Call, depth int, ctx *callCtx) 
 				}
 			}
 		}
+		for _, a := range cc.Args {
+			s.walk(st, a, depth, ctx)
+		}
 		return
 	}
 	for _, a := range cc.Args {
@@ -482,4 +510,53 @@ func sliceHasCallTo(sl map[ssa.Value]bool, pkg, name string) bool {
 		c, ok := v.(*ssa.Call)
 		return ok && isCallTo(&c.Call, pkg, name)
 	})
+}
+
+
+// walkMutators: a reference value (pointer, map, slice, interface) handed to a
+// call whose body is not analysed may be written through by that call; the
+// value then depends on the call's other arguments.
+func (s *Slicer) walkMutators(st *sliceState, v ssa.Value, depth int, ctx *callCtx) {
+	switch v.Type().Underlying().(type) {
+	case *types.Pointer, *types.Map, *types.Slice, *types.Interface:
+	default:
+		return
+	}
+	switch v.(type) {
+	case *ssa.Const, *ssa.Global, *ssa.Function, *ssa.Builtin, *ssa.Parameter, *ssa.FreeVar:
+		return
+	}
+	refs := v.Referrers()
+	if refs == nil {
+		return
+	}
+	for _, r := range *refs {
+		cl, ok := r.(*ssa.Call)
+		if !ok {
+			continue
+		}
+		if _, isB := cl.Call.Value.(*ssa.Builtin); isB {
+			continue
+		}
+		if s.descendable(cl, depth) != nil {
+			continue
+		}
+		isArg := false
+		if cl.Call.IsInvoke() && cl.Call.Value == v {
+			isArg = true
+		}
+		for i, a := range cl.Call.Args {
+			if a == v && (i == 0 || true) {
+				isArg = true
+			}
+		}
+		if !isArg {
+			continue
+		}
+		for _, a := range cl.Call.Args {
+			if a != v {
+				s.walk(st, a, depth, ctx)
+			}
+		}
+	}
 }
